@@ -10,8 +10,8 @@ What the renaming of one program is, is the composition of:
                               top-level names are remapped iff obfuscate_globals
 Dict / set state is modelled by recording doubles (get / __setitem__ / __contains__ are externals with a ghost log); the
 declared-set membership is an uninterpreted predicate.  The reserved set (Scope._reserved_symbols) and the symbol tables are
-under contract in contracts/scopes.py, the marker handlers in contracts/obfuscator.py.  That the names a NameGenerator yields
-are pairwise distinct and outside its skip set is NOT under contract: bounded stand-in."""
+under contract in contracts/scopes.py, the marker handlers in contracts/obfuscator.py, the name generator in
+contracts/namegen.py (names outside its skip set; pairwise distinctness by the model of itertools.product only)."""
 import z3
 
 from vf.pyvc.dsl import Contract, Loop, Const, OneOf, Helper, PExt, PObj, PList, Str, Int, Bool, SBool, SInt, SStr
